@@ -139,7 +139,7 @@ impl<'p> Ck<'p> {
 
     fn members(&mut self, list: &[(Option<i128>, bool, String)], compact_kind: Option<&'static str>, at: &str) {
         // list: (tag, type is optional, path)
-        let mut seen: BTreeMap<i128, usize> = BTreeMap::new();
+        let mut groups: BTreeMap<i128, Vec<String>> = BTreeMap::new();
         for (tag, optional, path) in list {
             if let Some(t) = tag {
                 if *t < 0 || *t > (1i128 << 31) - 1 {
@@ -154,10 +154,15 @@ impl<'p> Ck<'p> {
                 // uniqueness is judged on the value the compiler keeps (the literal as u32); for
                 // in-range tags that is the written value
                 let key = (*t as u32) as i128;
-                let e = seen.entry(key).or_insert(0);
-                *e += 1;
-                if *e > 1 {
-                    self.v("R-TAG-UNIQUE", "E012", path);
+                groups.entry(key).or_default().push(path.clone());
+            }
+        }
+        // every member of a group of equal tags is an offending element (which one a diagnostic
+        // names is the implementation's choice)
+        for (_k, g) in groups {
+            if g.len() > 1 {
+                for path in g {
+                    self.v("R-TAG-UNIQUE", "E012", &path);
                 }
             }
         }
@@ -165,10 +170,15 @@ impl<'p> Ck<'p> {
     }
 
     fn unique_names(&mut self, names: &[(String, String)], rule: &'static str) {
-        let mut seen = BTreeSet::new();
+        let mut groups: BTreeMap<&str, Vec<&str>> = BTreeMap::new();
         for (n, at) in names {
-            if !seen.insert(n.clone()) {
-                self.v(rule, "E010", at);
+            groups.entry(n.as_str()).or_default().push(at.as_str());
+        }
+        for (_n, g) in groups {
+            if g.len() > 1 {
+                for at in g {
+                    self.v(rule, "E010", at);
+                }
             }
         }
     }
@@ -182,7 +192,7 @@ impl<'p> Ck<'p> {
             }
         }
         if streamed.len() > 1 {
-            for (_, at) in &streamed[..streamed.len() - 1] {
+            for (_, at) in &streamed {
                 self.v("R-STREAM-SINGLE", "E029", at);
             }
         }
@@ -482,7 +492,7 @@ pub fn check_program(p: &Program) -> Report {
                     }
                     let names: Vec<_> = e.enumerators.iter().enumerate().map(|(k, x)| (x.name.clone(), format!("{dp}/m{k}"))).collect();
                     ck.unique_names(&names, "R-NAME-ENUMERATOR");
-                    let mut seen_values: BTreeSet<i128> = BTreeSet::new();
+                    let mut seen_values: BTreeMap<i128, Vec<String>> = BTreeMap::new();
                     let mut prev: Option<i128> = None;
                     for (k, en) in e.enumerators.iter().enumerate() {
                         let ep = format!("{dp}/m{k}");
@@ -492,9 +502,7 @@ pub fn check_program(p: &Program) -> Report {
                             None => prev.map_or(0, |x| x.wrapping_add(1)),
                         };
                         prev = Some(value);
-                        if !seen_values.insert(value) {
-                            ck.v("R-ENUMERATOR-UNIQUE", "E022", &ep);
-                        }
+                        seen_values.entry(value).or_default().push(ep.clone());
                         if e.underlying.is_none() && (value < 0 || value > (1i128 << 31) - 1) {
                             ck.v("R-ENUMERATOR-RANGE", "E020", &ep);
                         }
@@ -519,6 +527,13 @@ pub fn check_program(p: &Program) -> Report {
                             for (q, fld) in fs.iter().enumerate() {
                                 ck.attrs(&fld.pre.attrs, "field", &format!("{ep}/m{q}"));
                                 ck.type_attrs(&fld.ty, &format!("{ep}/m{q}/type"));
+                            }
+                        }
+                    }
+                    for (_v, g) in seen_values {
+                        if g.len() > 1 {
+                            for ep in g {
+                                ck.v("R-ENUMERATOR-UNIQUE", "E022", &ep);
                             }
                         }
                     }
